@@ -107,7 +107,10 @@ CHECKS['C09'] = dict(
           "variables (every order; plus literal sequences with repetition, plus 4 variables) through prove_tautology / "
           "start_resolution_algorithm / resolution_algorithm; each normal-form stage (to_conj_form, propag_neg, to_cnf, "
           "to_clauses) checked for shape, truth-table equivalence and the conclusions of both returned proofs; returned "
-          "proofs replayed on a StatefulInterpreter and a stride serialised and run through the real checker."),
+          "proofs replayed on a StatefulInterpreter and a stride serialised and run through the real checker. The stages are "
+          "also driven directly: every And/Or tree of <=4/5 leaves (all-And/all-Or trees up to 6/7), every Or-tree with "
+          "negation flags on any node, every clause of <=5/6 literals x resolvent through simplify_clause, every (copies, rest) "
+          "through the duplicate collapse, fat clauses through the resolution algorithm."),
     note='Trusted: truth tables. Replays through the optimiser are limited to proofs under 2.5 kB (C02 covers the optimiser).',
     technique='bounded-exhaustive enumeration of formulas and clause orderings against a truth-table oracle',
     design='5/C09',
@@ -210,10 +213,13 @@ CHECKS['C15'] = dict(
     level='exploration',
     text=("Bounded-exhaustive against an independent Appendix-B reference (mc/mmref.py, validated by verifying every shipped "
           "benchmark): every step number 1..10^6 (2*10^6 thorough) encoded by the reference and decoded by "
-          "MetamathConverter._import_proof in two whitespace layouts; every letter string up to length 4/5 over the "
+          "the converter (parse_database + MetamathConverter, public path) in two whitespace layouts; every letter string up to length 4/5 over the "
           "compressed alphabet incl. Z that the reference accepts; label lists of length 0-3 through parse_database in six "
           "layouts; targets with 0-3 mandatory variables with the floating hypotheses declared in every order, one "
-          "subprocess per hash seed in a window selected by VERIF_SEED (observed set-iteration orders are listed)."),
+          "subprocess per hash seed in a window selected by VERIF_SEED (observed set-iteration orders are listed); every sequence "
+          "of <=3/4 lemmas from a pool of six in ONE database (nothing may carry over between lemmas); every placement of <=2 "
+          "reuse marks in a valid proof (equal expressions marked twice, references to the latest or earliest mark) translated "
+          "and accepted by the checker."),
     note='Hash seeds: 8 (quick) / 32 (thorough) per run; orders of the 2- and 3-element variable sets actually observed are in the evidence.',
     technique='bounded-exhaustive enumeration of numbers, letter strings, layouts and (declaration order x hash seed) configurations',
     design='5/C15',
@@ -225,7 +231,9 @@ CHECKS['C16'] = dict(
           "reference Metamath verifier, written in three compression layouts (no Z / every repeated sub-proof / first repeated "
           "sub-proof) and translated by the body of translate.main with both optimise settings; the reference machine's "
           "journal must show the images of the database's axioms and rules and the image of the target as the one claim "
-          "proved, the real checker must accept, and all layouts must agree. Shipped benchmarks are translated and checked too."),
+          "proved, the real checker must accept, and all layouts must agree. Shipped benchmarks are translated and checked too. "
+          "Plus every placement of <=2/3 reuse marks on five targets, and databases with 3..200 (700) extra constants whose "
+          "proofs pass the one-, two- and three-letter number ranges."),
     note=("Known finding: databases whose floating hypotheses are not declared in the order ph0, ph1, ph2 (positional "
           "instantiation of prop-1/prop-2 in exec_proof). Quick tier strides over derivations of all but the first feature vector."),
     technique='BFS over derivations of generated databases; translation validated by reference machine and real checker',
@@ -234,12 +242,14 @@ CHECKS['C16'] = dict(
 CHECKS['C17'] = dict(
     level='exploration',
     text=("Bounded-exhaustive over a construction grammar of databases (order of floating hypotheses x declared notation x every "
-          "subset of {plain lemma, lemma under $e, lemma under $d, lemma in a nested block} x goal variants), all proofs "
+          "subset of {plain lemma, lemma under $e, under $d, in a nested block, under a global $d, with a $d naming an unused "
+          "variable, through a dummy variable, using another lemma with hypotheses} x goal variants), all proofs "
           "produced by the reference encoder and verified by the reference verifier: parse(print(db)) == db, printing "
           "idempotent, printed text read back by an independent tokenizer; the slicing pipeline as main() drives it must "
           "produce, for every lemma the goal needs, a slice that the reference verifier accepts (everything declared before "
           "use), with floating hypotheses in original order, carrying the original compressed proof and statement. "
-          "All shipped benchmarks go through the print/parse part."),
+          "All shipped benchmarks go through the print/parse part. Histories: every sequence of <=2/3 databases with colliding "
+          "token sets parsed, printed and sliced in one fresh process must give, at every position, what the database gives alone."),
     note='Trusted: mc/mmref.py (verifier and tokenizer).',
     technique='bounded-exhaustive enumeration of generated databases against a reference Metamath verifier',
     design='5/C17',
@@ -248,7 +258,8 @@ CHECKS['C17'] = dict(
 CHECKS['C18'] = dict(
     level='exploration',
     text=("Exhaustive over a grid of configurations, one subprocess each: every target (shipped modules, import-graph "
-          "modules, DSL expressions, translations of shipped and generated Metamath databases with 2+ variables) under every "
+          "modules, DSL expressions incl. re-ordered / partially applied notation as dynamic_inst plugs, theories whose axioms "
+          "contain one another, translations of shipped and generated Metamath databases with 2+ variables) under every "
           "hash seed of a window selected by VERIF_SEED; every sequence of 2 (and 3) targets serialised in one process, so "
           "that each target is produced after every history; every target serialised three times from one module object (as "
           "translate.main does). All 12 files (binary and pretty, optimise off and on) must be byte-identical to the baseline "
@@ -265,8 +276,11 @@ CHECKS['C20'] = dict(
           "tried; a step is accepted iff it starts at the configuration reached, a refused step leaves claims/axioms/proofs "
           "unchanged, the claims are exactly the instantiated rewrites so far; every maximal history is serialised with both "
           "settings and accepted by reference machine and real checker with all claims discharged. Conversion from (stub) "
-          "Kore: variable scoping per axiom and convert(rule).instantiate(convert(s)) == convert(s(rule)) for all ground s."),
-    note='Assumption: mc/stubs/pyk/kore/syntax.py stands in for the absent pyk.kore.syntax. Trace length 4 (quick) / 5 (thorough).',
+          "Kore: variable scoping per axiom (element and sort variables) and convert(rule).instantiate(convert(s)) == "
+          "convert(s(rule)) for all ground s. Traces as users supply them: every event sequence of length <=2/3, chained or "
+          "not, with the recorded configurations filled in four ways, through from_proof_hints and through "
+          "LLVMRewriteTrace -> get_proof_hints -> from_proof_hints over the stub Kore definition."),
+    note='Assumption: mc/stubs/pyk (kore.syntax, kllvm) stands in for the absent pyk package. Trace length 4 (quick) / 5 (thorough).',
     technique='explicit-state BFS over rewrite-event histories of the real proof-module object; end-to-end acceptance by the real checker',
     design='5/C20',
 )
